@@ -120,7 +120,12 @@ func solveOne(v *Verdict, opt dischargeOpts) {
 			return
 		}
 	}
-	r := runSolvers(v.Query, opt.timeoutS, opt.all, "")
+	all, to := opt.all, opt.timeoutS
+	if o.Kind == "reach" {
+		// audit obligations: the first answer is enough, short timeout
+		all, to = false, 10
+	}
+	r := runSolvers(v.Query, to, all, "")
 	r.Time = time.Since(st).Seconds()
 	v.Result = r
 	switch o.Expect {
